@@ -1,6 +1,6 @@
 (** List-layer rows and row operations as emitted by the harness, and their
     translation to the canonical model types. *)
-From LOV Require Export Upd.Merge.
+From LOV Require Export Upd.Merge Upd.Cond.
 
 Notation lrow := (list (sym * lvalue)).
 
@@ -24,3 +24,6 @@ Definition mk_rop (o : lrop) : rop :=
 
 Definition row_eqb (a b : row) : bool := bool_decide (a = b).
 Definition orow_eqb (a b : option row) : bool := bool_decide (a = b).
+
+Notation lcond := (sym * cfun * lvalue)%type.
+Definition mk_cond (c : lcond) : cond := let '(col, f, v) := c in (col, f, canon v).
